@@ -320,6 +320,37 @@ def unit_compare(unit):
     ops = dict(CMP)
     if kind == "bool":
         ops.update(LOGIC)
+    # ---- zero-length operands, reached the way programs reach them (a filter that selects nothing, an empty slice, a typed empty
+    # vector): the result is still a non-nullable bool vector - and usable as a mask on the empty operand
+    seed = [x for x in alpha if x is not None][:2]
+    empties = [("filtered-to-nothing", lambda: Vector(list(seed))[[False] * len(seed)]), ("empty-slice", lambda: Vector(list(seed))[0:0]),
+               ("typed-empty", lambda: Vector([], dtype=type(seed[0])))]
+    for (ln, mk_l), (rn, mk_r) in itertools.product(empties, repeat=2):
+        for opn, op in list(ops.items()) + ([] if kind == "bool" else []):
+            for form in ("vv", "vl", "vs", "chain"):
+                case = {"op": opn, "left": ln, "right": rn if form in ("vv", "chain") else form, "form": form, "kind": kind}
+                agg.evals += 1; agg.transitions += 1; agg.states += 1
+                try:
+                    l = mk_l()
+                    if form == "vv":
+                        res = op(l, mk_r())
+                    elif form == "vl":
+                        res = op(l, [])
+                    elif form == "vs":
+                        res = op(l, seed[0])
+                    else:
+                        # (l op r) & (l op r), then used as a mask: t0[cond]
+                        res = (op(l, mk_r())) & (op(mk_r(), l))
+                    picked = l[res]
+                except Exception as e:
+                    if _python_raises(op, seed, seed):
+                        agg.skipped["python-raises"] += 1
+                        continue
+                    agg.violation(V(f"compare.{opn}.empty", "raises-" + type(e).__name__, case, [], repr(e)[:80]))
+                    continue
+                check_bool_result(agg, f"compare.{opn}.empty", res, [], case)
+                if list(picked._underlying) != []:
+                    agg.violation(V(f"compare.{opn}.empty", "mask-of-nothing-selects-something", case, [], list(picked._underlying)))
     for n in range(1, maxlen + 1):
         for xs in itertools.product(alpha, repeat=n):
             xs = list(xs)
